@@ -598,10 +598,20 @@ def translate_source(src, origin="deap/tools/constraint.py"):
 TRAILER = os.path.join(os.path.dirname(os.path.abspath(__file__)), "c19_gen_trailer.v.in")
 
 
-def translate_repo(repo):
-    """Full text of coq/Gen/C19_gen.v for the working tree `repo` (raises Refuse)."""
+DIAG_TRAILER = """
+From DV Require Import Corr.C19.
+Definition check_gen : case -> bool :=
+  check_with (@gen_delta_init ind xargs) (@gen_delta_wrapper ind xargs)
+             (@gen_closest_init ind xargs) (@gen_closest_wrapper ind xargs).
+"""
+
+
+def translate_repo(repo, trailer=True):
+    """Full text of coq/Gen/C19_gen.v for the working tree `repo` (raises Refuse).
+    trailer=False: the definitions with only the correspondence entry point (diagnosis when the
+    equivalence with the model no longer checks)."""
     p = os.path.join(repo, "deap", "tools", "constraint.py")
-    return translate_source(open(p).read(), p) + open(TRAILER).read()
+    return translate_source(open(p).read(), p) + (open(TRAILER).read() if trailer else DIAG_TRAILER)
 
 
 if __name__ == "__main__":
